@@ -6,17 +6,27 @@ from checks import kvgen as G, c01, c06
 
 LEVEL = "proof"
 MODULE = "IwModel.Props.C03"
-THEOREMS = []
+THEOREMS = ["IwModel.C03." + t for t in (
+    "sblk_roundtrip_over", "sblk_roundtrip", "sblk_enc_bytes", "kvindex_roundtrip", "kv_roundtrip",
+    "dbhdr_roundtrip_over", "dbhdr_roundtrip", "fsmhdr_roundtrip", "fsm_layout_total",
+    "holds_after_writes", "node_roundtrip", "node_contents_roundtrip", "reopen_contents", "reopen_records", "reopen_db")]
 MANIFEST = dict(
     level="proof",
-    text=("Reopen is modelled as 'parse the closed file': theorems relate the Lean format reader to the contents (codec round trips), and the "
-          "check cuts generated histories by close/reopen cycles (WAL on/off on either side, read-only/read-write, trim/no-trim, database "
-          "create/destroy between cycles, truncate) and compares ids, flags, metadata and records after every reopen with the compiled "
-          "Lean model and a python reference; read-only sessions must leave size and hash of the file unchanged; the closed file is "
-          "also parsed by the Lean reader and must yield the same contents"),
-    note=("trusted: Lean kernel/compiler, harness, generators, python reference; the writer side (serialisation by the C code) is validated by "
-          "the reader on explored histories, not proved; OS file semantics trusted"),
-    technique="Lean 4 format reader/codec theorems + differential correspondence on close/reopen cycles")
+    text=("Reopen is modelled as 'read the closed file'. The writer side of the file format is written in Lean field by field "
+          "after the C writers (_sblk_sync_mm, _kvblk_sync_mm, _kvblk_addkv, _db_save, _fsm_write_meta_lw; Model/FormatEnc.lean) and "
+          "the reader that parses real files (Model/Format.lean) is defined through the shared decoders. Theorems: every record "
+          "round-trips over arbitrary stale content (sblk/kvindex/kv/dbhdr/fsmhdr_roundtrip), a node filled the way _kvblk_addkv "
+          "fills a block is read back in pi order (node_contents_roundtrip), and a whole database - a list of nodes with levels "
+          "and records as in the key-value model, placed by any layout whose regions are inside the file and pairwise disjoint - "
+          "written over arbitrary old content is returned by the reader with the same id, flags, nodes, records and metadata "
+          "(reopen_contents, reopen_db). The encoders are tied byte for byte to real files (`drv fmt reenc`: parse, re-encode, "
+          "compare with the bytes the C code wrote), the reader to the python reference, and the check cuts generated histories by "
+          "close/reopen cycles (WAL on/off, read-only, trim/no-trim, create/destroy between cycles) comparing ids, flags, metadata "
+          "and records after every reopen with the Lean KV model and the reference"),
+    note=("trusted: Lean kernel/compiler, harness, generators, python reference, OS file semantics; the theorems are about the Lean "
+          "writer, which is tied to the C writer by byte comparison on explored files only (not by proof over the C code); "
+          "the allocator's choice of addresses is a parameter (any disjoint layout), WAL replay is covered by C04/C05"),
+    technique="Lean 4 writer/reader of the file format with round-trip theorems + byte-exact re-encoding of real files + differential correspondence on close/reopen cycles")
 
 
 def gen_history(r, ncycles, nops):
